@@ -230,14 +230,19 @@ func getObjectValueFromKey(v interface{}, key string) (interface{}, error) {
 	rv := reflect.ValueOf(v)
 	switch rt.Kind() {
 	case reflect.Map:
-		mv := rv.MapIndex(reflect.ValueOf(key))
-		if mv.Kind() == 0 || mv.IsZero() {
+		if rt.Key().Kind() != reflect.String {
+			return nil, fmt.Errorf("can't access attribute '%s' of a map with %v keys", key, rt.Key())
+		}
+		mv := rv.MapIndex(reflect.ValueOf(key).Convert(rt.Key()))
+		if !mv.IsValid() {
 			return nil, nil
 		}
 		return mv.Interface(), nil
-		// return rv.MapIndex(reflect.ValueOf(key)).Interface(), nil
 	case reflect.Struct:
 		field := rv.FieldByName(key)
+		if !field.IsValid() || !field.CanInterface() {
+			return nil, fmt.Errorf("type %T has no exported field '%s'", v, key)
+		}
 		return field.Interface(), nil
 	}
 	return nil, nil
